@@ -688,6 +688,9 @@ class Zone(dns.transaction.TransactionManager):
             else:
                 txt_is_utf8 = style.txt_is_utf8
             style = style.replace(idna_codec=idna_codec, txt_is_utf8=txt_is_utf8)
+        if style.want_generic and style.origin is None and self.origin is not None:
+            # The generic form is made from the wire form, which needs absolute names.
+            style = style.replace(origin=self.origin, relativize=self.relativize)
         if isinstance(f, str):
             cm: contextlib.AbstractContextManager = open(f, "wb")
         else:
